@@ -27,21 +27,22 @@ type Case struct {
 	World *WorldDef `json:"world,omitempty"`
 	Sched []int     `json:"sched,omitempty"`
 
-	Nav     *NavCase     `json:"nav,omitempty"`
-	Visits  *VisitCase   `json:"visits,omitempty"`
-	DictQ   *DictCase    `json:"dictq,omitempty"`
-	DVQ     *DVCase      `json:"dvq,omitempty"`
-	Reuse   *ReuseCase   `json:"reuse,omitempty"`
-	DMT     *DMTCase     `json:"dmt,omitempty"`
-	Hist    *HistCase    `json:"hist,omitempty"`
-	Tree    *TreeCase    `json:"tree,omitempty"`
-	Conc    *ConcCase    `json:"conc,omitempty"`
-	PFault  *PFaultCase  `json:"pfault,omitempty"`
-	RFault  *RFaultCase  `json:"rfault,omitempty"`
-	BuildH  *BuildHCase  `json:"buildh,omitempty"`
-	Interop *InteropCase `json:"interop,omitempty"`
-	Life    *LifeCase    `json:"life,omitempty"`
-	Special *SpecialCase `json:"special,omitempty"`
+	Nav     *NavCase        `json:"nav,omitempty"`
+	Visits  *VisitCase      `json:"visits,omitempty"`
+	DictQ   *DictCase       `json:"dictq,omitempty"`
+	DVQ     *DVCase         `json:"dvq,omitempty"`
+	Reuse   *ReuseCase      `json:"reuse,omitempty"`
+	DMT     *DMTCase        `json:"dmt,omitempty"`
+	Hist    *HistCase       `json:"hist,omitempty"`
+	Tree    *TreeCase       `json:"tree,omitempty"`
+	Conc    *ConcCase       `json:"conc,omitempty"`
+	PFault  *PFaultCase     `json:"pfault,omitempty"`
+	RFault  *RFaultCase     `json:"rfault,omitempty"`
+	BuildH  *BuildHCase     `json:"buildh,omitempty"`
+	Interop *InteropCase    `json:"interop,omitempty"`
+	Life    *LifeCase       `json:"life,omitempty"`
+	Special *SpecialCase    `json:"special,omitempty"`
+	MFault  *MergeFaultCase `json:"mfault,omitempty"`
 }
 
 type Env struct {
@@ -310,6 +311,9 @@ type hangAbort struct{ res *Result }
 
 var curCase atomic.Pointer[Case]
 
+// CurrentCaseFile, when set, receives the case about to be executed.
+var CurrentCaseFile string
+
 // OnShardAbort is called by the watchdog with the stats to persist; it must not return.
 var OnShardAbort func(st *ShardStats)
 
@@ -409,6 +413,13 @@ func RunShard(prop, tier string, seed uint64, shard, shards int, plan []PlanItem
 			c := sc.Gen(t, prop)
 			c.Scen = sc.Name
 			curCase.Store(c)
+			if CurrentCaseFile != "" {
+				// if the process dies (a fatal runtime error, a panic on a goroutine
+				// the code under test started), the orchestrator finds the case here
+				if b, err := json.Marshal(&Replay{Property: prop, Check: prop, Scenario: sc.Name, Seed: seed, Shard: shard, Case: c, Trace: "0"}); err == nil {
+					_ = os.WriteFile(CurrentCaseFile, b, 0o644)
+				}
+			}
 			res, err := Execute(c, env)
 			curCase.Store(nil)
 			if err != nil {
